@@ -274,7 +274,7 @@ def copyDiscipline : Table where
     | .aggUnwind => [.copyField, .deepcopy]
     | .insertedId => [.copyField]
     | .upsertedId => [.copyField]
-    | .aggLiteral => [.noCopy]
+    | .aggLiteral => [.deepcopy]   -- aggregate.py `$literal` / array constants: copy.deepcopy (was noCopy: agg-literal-alias, fixed)
     | .cursorCache => [.noCopy]
 
 /-- the positions at which a table does not copy -/
